@@ -79,8 +79,10 @@ def check_history(line, toks):
             if p[0] in ('rr', 'rrc', 'rc') or (f[0] == 'dig' and len(p) > 2):
                 n = int(p[2])
                 if ty == 'poly1305':
-                    ok_shape = n >= 16
-                    want_buf = want + bytes(n - 16) if ok_shape else None
+                    ok_shape = n >= 16          # documented: "at least 16 bytes"; only the first 16 are the tag
+                    want_buf = want if ok_shape else None
+                    if ok_shape and t not in (None, 'PANIC'):
+                        t = t[:32]
                 else:
                     ok_shape = n == outlen
                     want_buf = want
